@@ -45,11 +45,14 @@ def units_contract(seed, tier):
             conv = "currency"
         else:
             conv = "pint"
-        decl = (src["name"], repr(p0.Min), repr(p0.Max), repr(p0.DefaultValue), str(p0.PreferredUnits.value))
+        decl = (src["name"], repr(p0.Min), repr(p0.Max), repr(p0.DefaultValue), str(p0.PreferredUnits.value),
+                str(getattr(p0.CurrentUnits, "value", p0.CurrentUnits)))
         if decl in seen_decl:
             continue
         seen_decl.add(decl)
-        pref = str(p0.PreferredUnits.value)
+        # the unit a bare number is read in (and the value is held in) is the declared CurrentUnits; it equals
+        # PreferredUnits for all but two fraction-valued parameters declared '' / '%'
+        pref = str(p0.CurrentUnits.value) if hasattr(p0.CurrentUnits, "value") else str(p0.PreferredUnits.value)
         kind = type(p0.PreferredUnits).__name__
         lo, hi = float(p0.Min), float(p0.Max)
         if not (lo > -1e29 and hi < 1e29 and hi > lo):
@@ -57,7 +60,7 @@ def units_contract(seed, tier):
         samples = [lo + (hi - lo) * 0.37, lo + (hi - lo) * 0.61]
         for u in _catalogue(p0):
             ustr = str(u.value)
-            if ustr == pref or not ustr.strip():
+            if not ustr.strip():
                 continue        # '' cannot be written after a value in an input file
             for v_pref in samples:
                 if v_pref == p0.DefaultValue:
@@ -252,7 +255,10 @@ def output_units_contract(seed, tier):
                 if key in seen or not hasattr(op0.PreferredUnits, "value") or op0.UnitType == Units.NONE:
                     continue
                 seen.add(key)
-                kind, pref = type(op0.PreferredUnits).__name__, str(op0.PreferredUnits.value)
+                # the computed value is expressed in the output's declared working unit (CurrentUnits), which for a few
+                # outputs differs from the unit it is displayed in by default (PreferredUnits)
+                kind = type(op0.PreferredUnits).__name__
+                pref = str(op0.CurrentUnits.value) if hasattr(op0.CurrentUnits, "value") else str(op0.PreferredUnits.value)
                 currency = op0.UnitType in (Units.CURRENCY, Units.CURRENCYFREQUENCY, Units.COSTPERMASS, Units.ENERGYCOST)
                 for u in _catalogue(op0):
                     ustr = str(u.value)
@@ -261,21 +267,21 @@ def output_units_contract(seed, tier):
                     for sample in (12.5, [1.0, 2.5, 40.0]):
                         k = (kind, ustr)
                         try:
-                            if currency:
-                                f = _currency_factor(pref, ustr)
-                                if f is None:
-                                    continue
-                                want = np.asarray(sample) * f
-                            else:
-                                want = ureg.Quantity(np.asarray(sample, dtype=float), pref).to(ustr).magnitude
+                            # the registry defines the currency units of the catalogue too (USD, cents, KUSD, ...): it is
+                            # the oracle wherever it knows both units; the prefix rule only where it does not
+                            want = ureg.Quantity(np.asarray(sample, dtype=float), pref).to(ustr).magnitude
                         except pint.errors.DimensionalityError:
                             continue
                         except BaseException:
-                            continue        # unit unknown to the registry: reported by the ground check
+                            if not currency:
+                                continue        # unit unknown to the registry: reported by the ground check
+                            f = _currency_factor(pref, ustr)
+                            if f is None:
+                                continue
+                            want = np.asarray(sample) * f
                         results.setdefault(k, [])
                         op = copy.deepcopy(op0)
                         op.value = copy.deepcopy(sample)
-                        op.CurrentUnits = op.PreferredUnits
                         n_eval += 1
                         try:
                             with contextlib.redirect_stdout(io.StringIO()):
